@@ -66,7 +66,15 @@ Fixpoint spec_loop (m : mods) (name : option N) (toks : list tk) {struct toks}
               | [] => spec_loop m' name r
               end
             else spec_loop m' name r
-        | None => finish
+        | None =>
+            (* a type name the model does not cover (fundamental types, typename, decltype, a class key, '::' ...) is outside
+               the model, not an error *)
+            if memN (kty t) attribute_start_tokens then DErr 4       (* _consume_attribute inside the loop: not modelled *)
+            else
+            match name with
+            | Some _ => finish
+            | None => if memN (kty t) pqname_start_tokens then DErr 4 else finish
+            end
         end
   | [] => DErr 2                                            (* get_token() at end of input *)
   end.
@@ -153,7 +161,7 @@ Definition nm_tok (b : N) : tk := if b =? 0 then ktok T_void else mkTk T_NAME b.
 Definition spec_stop (rest : list tk) : bool :=
   match rest with
   | t :: _ => (is_name_start t || is_ptr_ref_paren t || negb (spec_kw (kty t))) && negb (is T_STRING_LITERAL t)
-              && negb (is T_DBL_COLON t || is T_LIT_60 t)
+              && negb (is T_DBL_COLON t || is T_LIT_60 t) && negb (memN (kty t) attribute_start_tokens)
   | [] => false
   end.
 
@@ -170,8 +178,8 @@ Proof.
   destruct Hnm as (Hn1 & Hn2 & Hn3).
   rewrite spec_loop_kws; [|exact Hpre|cbn [no_string]; now rewrite Hn2].
   destruct rest as [|t r]; [discriminate|].
-  cbn [spec_stop] in Hstop. apply andb_prop in Hstop as [Hstop Hsc]. apply andb_prop in Hstop as [Hs Hstr].
-  apply negb_true_iff in Hsc.
+  cbn [spec_stop] in Hstop. apply andb_prop in Hstop as [Hstop Hat]. apply andb_prop in Hstop as [Hstop Hsc]. apply andb_prop in Hstop as [Hs Hstr].
+  apply negb_true_iff in Hsc. apply negb_true_iff in Hat.
   assert (Hnext : match kw_toks post ++ t :: r with
                   | t2 :: _ => is T_DBL_COLON t2 || is T_LIT_60 t2 | [] => false end = false).
   { destruct post as [|k2 q]; [exact Hsc|]. cbn [kw_toks map app].
@@ -183,7 +191,7 @@ Proof.
   rewrite spec_loop_kws; [|exact Hpost|cbn [no_string]; exact Hstr].
   cbn [spec_loop].
   destruct (is_name_start t); [reflexivity|]. destruct (is_ptr_ref_paren t); [reflexivity|].
-  cbn [orb] in Hs. apply negb_true_iff in Hs. now rewrite (set_mod_none _ _ Hs).
+  cbn [orb] in Hs. apply negb_true_iff in Hs. rewrite (set_mod_none _ _ Hs). now rewrite Hat.
 Qed.
 
 (* ------------------------------------------------------------------ *)
